@@ -512,6 +512,20 @@ pub struct Spawn<'a> {
     pub trace_file: Option<PathBuf>,
     /// wrap in strace with these extra arguments (e.g. fault injection)
     pub strace: Option<Vec<String>>,
+    /// own the process's hash seeds: std's RandomState keys come from getrandom(2), which the
+    /// preloaded shim (harness/shim/ttvseed.c) answers deterministically from this number, so every
+    /// HashMap / HashSet iteration order of the run - hooked or not - is a function of it
+    pub hash_seed: Option<u64>,
+}
+
+/// the getrandom shim built by ./check (None when it could not be built: seeds then run free)
+pub fn seed_shim() -> Option<PathBuf> {
+    let p = crate::core::verif_root().join("build/libttvseed.so");
+    if p.is_file() {
+        Some(p)
+    } else {
+        None
+    }
 }
 
 pub fn spawn(sp: Spawn) -> ProcRun {
@@ -534,6 +548,10 @@ pub fn spawn(sp: Spawn) -> ProcRun {
     cmd.env("TERM", "dumb");
     if let Some(s) = &sp.schedule_env {
         cmd.env("TAURI_TYPEGEN_VERIF_SCHEDULE", s);
+    }
+    if let (Some(seed), Some(shim)) = (sp.hash_seed, seed_shim()) {
+        cmd.env("LD_PRELOAD", shim);
+        cmd.env("TTV_HASH_SEED", seed.to_string());
     }
     if let Some(t) = &sp.trace_file {
         let _ = std::fs::remove_file(t);
@@ -572,7 +590,7 @@ pub fn run_cli(cwd: &Path, args: &[&str]) -> ProcRun {
         cwd,
         schedule_env: None,
         trace_file: None,
-        strace: None,
+        strace: None, hash_seed: None
     })
 }
 
